@@ -36,16 +36,23 @@ theorem restore_roundtrip_entry (cfg : Cfg) (p : Port) (id : String) (b : Option
     exact restoreOn_doc cfg p _ id hp hc
   · rw [hb]; exact restoreOn_doc cfg p t id hp hc
 
-/-- **restore ∘ backup on a whole document**: if PUT /ports accepts the document obtained from GET /ports of the
-source (distinct ids), then under every entry's id the target hub now holds a port with the source's definition,
-attributes and (if enabled) value; passwords and everything else outside the document are untouched
+/-- **restore ∘ backup on a whole document** (full strength): for every source (any list of well-formed ports with
+distinct ids) and every target state running the same static configuration, PUT /ports ACCEPTS the document obtained
+from GET /ports of the source, and afterwards the target holds under every entry's id a port with the source's
+definition, attributes and (if enabled) value; passwords and everything else outside the document are untouched
 (`restore_device`). -/
 theorem restore_roundtrip (cfg : Cfg) (src : List (String × Port)) (st : BState)
     (nd : (src.map (·.1)).Nodup)
-    (hsrc : ∀ x ∈ src, WF cfg x.2 ∧ TargetOK cfg (st.ports x.1) x.2)
-    (hok : (putPorts cfg st (src.map (fun x => docOf x.1 x.2))).2 = .ok) :
+    (hsrc : ∀ x ∈ src, WF cfg x.2 ∧ TargetOK cfg (st.ports x.1) x.2) :
+    (putPorts cfg st (src.map (fun x => docOf x.1 x.2))).2 = .ok ∧
     ∀ x ∈ src, ∃ r, (putPorts cfg st (src.map (fun x => docOf x.1 x.2))).1.ports x.1 = some r ∧
       r.pdef = x.2.pdef ∧ r.attrs = x.2.attrs ∧ (enabledOf x.2 = true → r.value = x.2.value) := by
+  have hok : (putPorts cfg st (src.map (fun x => docOf x.1 x.2))).2 = .ok := by
+    apply putBody_accepts cfg src (fun id => afterReset (st.ports id)) nd
+    intro x hx
+    obtain ⟨r, hr, _⟩ := restore_roundtrip_entry cfg x.2 x.1 (st.ports x.1) (hsrc x hx).1 (hsrc x hx).2
+    exact ⟨r, hr⟩
+  refine ⟨hok, ?_⟩
   intro x hx
   have ndd : ((src.map (fun x => docOf x.1 x.2)).map (·.id)).Nodup := by
     rw [List.map_map]; exact nd
